@@ -482,6 +482,24 @@ impl Router {
             !group.is_empty()
         });
 
+        // Members of a shared group that wait for their turn are parked like caught up
+        // consumers: the turn may be theirs now
+        let shared_filters: Vec<Filter> = tracker
+            .data_requests
+            .iter()
+            .chain(inflight_data_requests.iter())
+            .filter(|request| request.group.is_some())
+            .map(|request| request.filter.clone())
+            .collect();
+        for filter in shared_filters {
+            if let Some(parked) = self.datalog.take_waiters(&filter) {
+                for (id, request) in parked {
+                    self.scheduler.track(id, request);
+                    self.scheduler.reschedule(id, ScheduleReason::FreshData);
+                }
+            }
+        }
+
         // Remove this connection from subscriptions
         for filter in connection.subscriptions.iter() {
             if let Some(connections) = self.subscription_map.get_mut(filter) {
@@ -782,6 +800,14 @@ impl Router {
 
                         self.scheduler.untrack(id, filter);
                         self.datalog.remove_waiters_for_id(id, filter);
+                        // members of a shared group that wait for their turn are parked
+                        // like caught up consumers: the turn may be theirs now
+                        if extract_group(filter).is_some() {
+                            if let Some(parked) = self.datalog.take_waiters(filter) {
+                                self.notifications.extend(parked);
+                                new_data = true;
+                            }
+                        }
                         // a publish earlier in this batch may already have woken the request
                         self.notifications
                             .retain(|(conn_id, request)| *conn_id != id || request.filter != *filter);
